@@ -8,7 +8,8 @@ distinct accepted words are distinct; it prints the exact integer image of every
 Conformance: (A) every transition of that LTS is replayed on the real Representation with a
 real shared `precomputed` dict; (B) every single call (direction x state x length x maxlen
 x with_words x edge_words) on every automaton of the FSAOps path table; (C) multi-letter
-labels (k-multiple automata, multi-character generator names); (D) freely reduced
+labels (spec/enum/EnumerateML.tla: the returned strings form a bag, one entry per accepting path, also when two paths
+spell the same string; k-multiple automata; multi-character generator names); (D) freely reduced
 enumeration against Words.tla; built-in automata.
 """
 import itertools
@@ -380,6 +381,149 @@ def builtin_and_multiples(run):
                     run.violation("builtin:%s%s:%s:raise" % (name, tag, mx), "raised:builtin", dict(file=name, error="%s: %s" % (type(e).__name__, e)))
 
 
+ML_IMG = None
+
+
+def ml_chunk(args):
+    """multi-letter labels: every call on every automaton of the chunk against the bag of strings EnumerateML.tla
+    specifies (a string once per accepting path spelling it)"""
+    from collections import Counter
+    obs, = args
+    rep = make_rep()
+    n = 0
+    viol = []
+    sample = None
+
+    def bag_of(entries):
+        c = Counter()
+        for s, m in entries:
+            c[W(s)] += m
+        return c
+
+    def check(res, bag, ww):
+        total = sum(bag.values())
+        if ww:
+            try:
+                mats, words = res
+            except Exception:
+                return ("shape", "with_words result is not a pair: %r" % (type(res),))
+            if Counter(words) != bag:
+                return ("words", "returned %r, spec (string: number of accepting paths) %r" % (sorted(Counter(words).items()), sorted(bag.items())))
+            mats = np.asarray(mats)
+            if mats.shape != (total, 2, 2):
+                return ("matrices.shape", "%r for %d words" % (mats.shape, total))
+            for i, w in enumerate(words):
+                if not np.allclose(mats[i], ML_IMG[w], rtol=0, atol=1e-9):
+                    return ("matrices[i] != image(words[i])", "word %r: %r, spec %r" % (w, mats[i].tolist(), ML_IMG[w].tolist()))
+        else:
+            mats = np.asarray(res)
+            if mats.shape != (total, 2, 2):
+                return ("count", "returned %r matrices, spec %d accepting paths" % (mats.shape, total))
+            got = sorted(tuple(np.round(m.flatten(), 6) + 0.0) for m in mats)
+            exp = sorted(tuple(ML_IMG[w].flatten() + 0.0) for w, m in bag.items() for _ in range(m))
+            if got != exp:
+                return ("matrices", "multiset of matrices differs from the images of the accepted words (one per path)")
+        return None
+
+    for o in obs:
+        vs = set(o["vs"])
+        E = {(e[0], W(e[1]), e[2]) for e in o["E"]}
+        f = make_fsa(vs, E)
+        ctx0 = dict(vs=sorted(vs), E=sorted(E))
+        for call in o["calls"]:
+            bag = bag_of(call["bag"])
+            for dirn in ((call["dir"], "none") if (call["dir"] == "start" and call["st"] == 0) else (call["dir"],)):
+                for ww in (True, False):
+                    kw = dict(maxlen=call["maxlen"], with_words=ww, edge_words=True)
+                    if dirn == "start":
+                        kw["start_state"] = call["st"]
+                    elif dirn == "end":
+                        kw["end_state"] = call["st"]
+                    n += 1
+                    try:
+                        bad = check(rep.automaton_accepted(f, call["L"], **kw), bag, ww)
+                    except Exception as e:
+                        bad = ("raised", "%s: %s" % (type(e).__name__, e))
+                    if bad and len(viol) < 10:
+                        viol.append((dict(ctx0, dir=dirn, state=call["st"], L=call["L"], **kw), bad))
+                    if sample is None and ww and max(bag.values(), default=0) > 1:
+                        sample = dict(kind="multi-letter labels", vs=sorted(vs), E=sorted(E), dir=dirn, state=call["st"], L=call["L"],
+                                      maxlen=call["maxlen"], returned_strings_with_multiplicity=sorted(bag.items()))
+            # agreement with the automaton's own enumeration (it lists paths too)
+            if call["dir"] == "start":
+                n += 1
+                try:
+                    if call["maxlen"]:
+                        got = Counter(f.enumerate_words(call["L"], start_vertex=call["st"]))
+                        what = "enumerate_words"
+                    else:
+                        got = Counter(f.enumerate_fixed_length_paths(call["L"], start_vertex=call["st"]))
+                        what = "enumerate_fixed_length_paths"
+                    bad = None if got == bag else ("agrees_with_" + what, "(%d, start %r) lists %r, accepting paths spell %r"
+                                                   % (call["L"], call["st"], sorted(got.items()), sorted(bag.items())))
+                except Exception as e:
+                    bad = ("raised:own_enumeration", "%s: %s" % (type(e).__name__, e))
+                if bad and len(viol) < 10:
+                    viol.append((dict(ctx0, what="own enumeration", state=call["st"], L=call["L"], maxlen=call["maxlen"]), bad))
+        for own in o["own"]:
+            n += 1
+            want = Counter()
+            for s_, end, m in own["bag"]:
+                want[(W(s_), end)] += m
+            try:
+                got = Counter(f.enumerate_fixed_length_paths(own["k"], start_vertex=own["st"], with_states=True))
+                bad = None if got == want else ("enumerate_fixed_length_paths.with_states", "(%d, %r) lists %r, spec %r"
+                                                % (own["k"], own["st"], sorted(got.items()), sorted(want.items())))
+            except Exception as e:
+                bad = ("raised:own_enumeration", "%s: %s" % (type(e).__name__, e))
+            if bad and len(viol) < 10:
+                viol.append((dict(ctx0, what="own enumeration with states", state=own["st"], k=own["k"]), bad))
+    return n, viol, sample
+
+
+def multi_letter(run):
+    """(C') labels of several letters, including automata in which different accepting paths spell the same string"""
+    global ML_IMG
+    quick = run.tier == "quick"
+    labels = [("a",), ("a", "a"), ("a", "B"), ("B",)]
+    mod = core.write_module(run.work + "/ml", "EnumerateML_w", ["EnumerateML"], "LabelsDef == %s" % core.tla_expr(set(labels)))
+    c = core.cfg(constants=dict(Verts={0, 1}, Start=0, MaxLen=3, MaxEdges=3 if quick else 4),
+                 invariants=["BagCountsPaths", "OncePerPath", "SingleLettersSpellUniquely", "ImageIsEdgeProduct", "EmitML"],
+                 extra="CONSTANT Labels <- LabelsDef")
+    r = run.tlc(mod, c, name="EnumerateML", workers=min(8, core.NCPU), emit_prefix="ML ")
+    ML_IMG = None
+    for line in r.stdout.splitlines():
+        if line.startswith('"IMG '):
+            ML_IMG = {W(w): np.array(m, dtype=float) for w, m in json.loads(json.loads(line)[4:])}
+    if ML_IMG is None:
+        raise core.MachineryFailure("no IMG table printed by EnumerateML.tla")
+    obs = sorted(r.emits, key=lambda o: json.dumps([o["vs"], o["E"]], sort_keys=True))
+    if quick:
+        rng = random.Random(run.seed)
+        small = [o for o in obs if len(o["E"]) <= 2]
+        amb = [o for o in obs if len(o["E"]) > 2 and o["ambiguous"]]
+        rest = [o for o in obs if len(o["E"]) > 2 and not o["ambiguous"]]
+        obs = small + rng.sample(amb, min(len(amb), 60)) + rng.sample(rest, min(len(rest), 60))
+    n_amb = sum(1 for o in obs if o["ambiguous"])
+    if not n_amb:
+        raise core.MachineryFailure("EnumerateML.tla: no automaton in which two accepting paths spell the same string")
+    n = min(core.NCPU, len(obs))
+    with mp.get_context("fork").Pool(n) as pool:
+        outs = pool.map(ml_chunk, [(obs[i::n],) for i in range(n)])
+    tot = 0
+    for (k, viol, sample) in outs:
+        tot += k
+        for ctx, bad in viol:
+            run.violation("ml:" + json.dumps(ctx, sort_keys=True, default=str)[:300], "multi_letter:" + bad[0], dict(case=ctx, observed=bad[1]))
+        if sample:
+            run.sample(sample)
+    run.evaluations += tot
+    run.traces += tot
+    run.nontrivial_count += tot
+    run.actions["call(multi-letter labels)"] = tot
+    run.extra["multi_letter"] = dict(automata=len(obs), with_two_paths_spelling_one_string=n_amb, labels=["".join(l) for l in labels])
+
+
 def run(run, replay=None):
     global EVAL, TABLE, LTS
     quick = run.tier == "quick"
@@ -458,7 +602,7 @@ def run(run, replay=None):
     run.nontrivial_count += tot
     run.actions["call(single)"] = tot
     run.extra["automata_for_single_calls"] = len(keys)
-    for part in (free_reduced, builtin_and_multiples):
+    for part in (multi_letter, free_reduced, builtin_and_multiples):
         try:
             part(run)
         except core.MachineryFailure:
